@@ -685,6 +685,7 @@ func wParse(b []byte, t *pty) (nodes []*wnode, ok bool, group bool) {
 
 type wopts struct {
 	pad, shuffle, split, dup, unknown bool
+	omitZero                          bool // singular non-pointer scalar fields holding their default are left out (map entries without key or value)
 	boolPadded                        bool // set by emit: a bool payload was written non-minimally
 }
 
@@ -820,6 +821,10 @@ func wEmit(nodes []*wnode, t *pty, o *wopts) []byte {
 				work = append(work, garbageScalar(nd))
 			}
 			work = append(work, nd)
+		case o.omitZero && nd.sing && !nd.isMsg && nd.pf != nil && nd.pf.t.k != kPtr && nd.et != nil && nd.et.k != kStruct &&
+			nd.u == 0 && len(nd.b) == 0 && omitZeroKind(nd.et.k) && nd.wt != protowire.BytesType && rndn(3) != 0:
+			// absent = default: protoc-generated encoders of other languages leave default keys and values of map
+			// entries out; the reference encoder never does
 		default:
 			work = append(work, nd)
 		}
@@ -1153,9 +1158,9 @@ func c12() {
 		pBigField(rnd()) // field numbers above 65535 (recorded deviation: kept in 16 bits)
 	}
 	g := &pgen{maxDepth: 3, allowRaw: false, allowMap: true, bigNumber: false}
-	nTypes, nVals, nRe := 260, 3, 5
+	nTypes, nVals, nRe := 260, 3, 6
 	if *tier == "thorough" {
-		nTypes, nVals, nRe = 3000, 5, 8
+		nTypes, nVals, nRe = 3000, 5, 10
 	}
 	var types []*pty
 	for _, s := range c12Fixed {
@@ -1201,6 +1206,7 @@ func c12() {
 					switch k % 5 {
 					case 0:
 						o.shuffle = true
+						o.omitZero = k >= 5
 					case 1:
 						o.pad = true
 					case 2:
@@ -1210,6 +1216,7 @@ func c12() {
 					default:
 						o.shuffle, o.pad, o.split, o.dup = rndBool(), rndBool(), rndBool(), rndBool()
 						o.unknown = rndn(3) == 0
+						o.omitZero = true
 					}
 					w := wEmit(nodes, t, o)
 					c12Legal(t, w, want, "re-encoding")
@@ -1278,4 +1285,13 @@ func c12Quiet(t *pty, v *pval) *pval {
 		}
 	}
 	return v
+}
+
+// omitZeroKind: scalar kinds carried in varint or fixed records whose zero payload is the Go zero value
+func omitZeroKind(k pkind) bool {
+	switch k {
+	case kStruct, kSlice, kMap, kPtr:
+		return false
+	}
+	return true
 }
